@@ -66,6 +66,7 @@ def valBeq : Val → Val → Bool
   | .st a, .st b => fsBeq a b
   | .prop o a, .prop p b => opBeq o p && valBeq a b
   | .en a, .en b => a == b
+  | .tup a, .tup b => valsBeq a b
   | _, _ => false
 def valsBeq : List Val → List Val → Bool
   | [], [] => true
@@ -100,6 +101,7 @@ theorem valBeq_refl : ∀ (v : Val), valBeq v v = true
   | .st a => by simp only [valBeq]; exact fsBeq_refl a
   | .prop o a => by simp only [valBeq, opBeq_refl, valBeq_refl a, Bool.and_self]
   | .en a => by simp [valBeq]
+  | .tup a => by simp only [valBeq]; exact valsBeq_refl a
 theorem valsBeq_refl : ∀ (vs : List Val), valsBeq vs vs = true
   | [] => by simp [valsBeq]
   | a :: as => by simp only [valsBeq, valBeq_refl a, valsBeq_refl as, Bool.and_self]
@@ -130,7 +132,7 @@ open Jomini.TextDoc
 def kx : Bytes := [120]
 def ka : Bytes := [97]
 def lfB (b : Bytes) : Node := .leaf ⟨b, false⟩
-def objA1 : Node := .obj [(ka, .eq, lfB [49])]
+def objA1 : Node := .obj [(.plain ka, .eq, lfB [49])]
 def arrPQ : Node := .arr [lfB [112], lfB [113]]
 def rgb : Bytes := [114, 103, 98]
 
@@ -151,7 +153,7 @@ def divergentWitnesses : List (Ty × Node) :=
     (.seq (.prop .str), arrPQ),                     -- propElem (array element)
     (.prop (.prop .str), lfB [115]) ]               -- propElem (nested Property)
 
-def witnessDoc (v : Node) : Doc := [(kx, .eq, v), ([119], .eq, lfB [122])]
+def witnessDoc (v : Node) : Doc := [(kx, .eq, v), (.plain [119], .eq, lfB [122])]
 def witnessTy (t : Ty) : Ty := .st [(kx, t), ([119], .opt .str)]
 
 theorem divergent_all :
@@ -159,5 +161,63 @@ theorem divergent_all :
       !resBeq (deTape .utf8 (witnessTy p.1) (tapeOf (witnessDoc p.2)))
               (deStream .utf8 (witnessTy p.1) (lexemes (witnessDoc p.2)))) = true := by
   decide +kernel
+
+/-! ### what the full text syntax adds and the two paths read DIFFERENTLY (from bytes) -/
+
+/-- both parsers accept the bytes and the two deserializer models return different results -/
+def bytesDiffer (ty : Ty) (bytes : Bytes) : Bool :=
+  match TextTape.parse bytes with
+  | .ok T _ =>
+    decide ((TextReader.sliceTokens bytes).out = .end_) &&
+      !resBeq (deTape .utf8 ty (toTextDeTape T)) (deStream .utf8 ty ((TextReader.sliceTokens bytes).toks.map toRTok))
+  | _ => false
+
+theorem bytesDiffer_sound {ty : Ty} {bytes : Bytes} (h : bytesDiffer ty bytes = true) :
+    ∃ T b, TextTape.parse bytes = .ok T b ∧ (TextReader.sliceTokens bytes).out = .end_ ∧
+      deTape .utf8 ty (toTextDeTape T) ≠ deStream .utf8 ty ((TextReader.sliceTokens bytes).toks.map toRTok) := by
+  unfold bytesDiffer at h
+  split at h
+  · next T b hp =>
+    simp only [Bool.and_eq_true, decide_eq_true_eq, Bool.not_eq_true'] at h
+    refine ⟨T, b, hp, h.1, fun heq => ?_⟩
+    rw [resBeq_of_eq heq] at h
+    exact absurd h.2 (by decide)
+  · exact absurd h (by decide)
+
+/-- `a={ b=1 c d }`: a mixed container (an object that goes on as a bare list) -/
+def bytesMixed : Bytes := [97, 61, 123, 32, 98, 61, 49, 32, 99, 32, 100, 32, 125]
+/-- `a={ b{ c=1 } d=2 }`: the `=` left out on the FIRST field of a nested container -/
+def bytesFirstImplicit : Bytes := [97, 61, 123, 32, 98, 123, 32, 99, 61, 49, 32, 125, 32, 100, 61, 50, 32, 125]
+/-- `a=1 [[x] b=2 ] c=3`: a parameter block -/
+def bytesParam : Bytes := [97, 61, 49, 32, 91, 91, 120, 93, 32, 98, 61, 50, 32, 93, 32, 99, 61, 51]
+
+def tyMixed : Ty := .st [([97], .map .str)]
+def tyFirstImplicit : Ty := .st [([97], .st [([98], .opt (.map .str)), ([100], .opt .str)])]
+def tyParam : Ty := .st [([97], .str), ([98], .opt .str), ([99], .opt .str)]
+
+/-- `id=1 arr={ 1 2 3 }` -/
+def bytesTupleLong : Bytes := [105, 100, 61, 49, 32, 97, 114, 114, 61, 123, 32, 49, 32, 50, 32, 51, 32, 125]
+def keyId : Bytes := [105, 100]
+def keyArr : Bytes := [97, 114, 114]
+def tyTupleLong : Ty := .st [(keyId, .u8), (keyArr, .tup [.i32, .i32])]
+
+theorem tupleLong_differ : bytesDiffer tyTupleLong bytesTupleLong = true := by decide +kernel
+
+theorem tupleLong_parse :
+    TextTape.parse bytesTupleLong =
+      .ok [.unquoted ⟨18, keyId⟩, .unquoted ⟨15, [49]⟩, .unquoted ⟨13, keyArr⟩, .array 7 false, .unquoted ⟨7, [49]⟩,
+        .unquoted ⟨5, [50]⟩, .unquoted ⟨3, [51]⟩, .endTok 3] false := by
+  decide +kernel
+
+theorem tupleLong_lex :
+    (TextReader.sliceTokens bytesTupleLong).toks =
+      [.unquoted keyId, .op .eq, .unquoted [49], .unquoted keyArr, .op .eq, .open_, .unquoted [49], .unquoted [50],
+        .unquoted [51], .close] ∧
+    (TextReader.sliceTokens bytesTupleLong).out = .end_ := by
+  decide +kernel
+
+theorem mixed_differ : bytesDiffer tyMixed bytesMixed = true := by decide +kernel
+theorem firstImplicit_differ : bytesDiffer tyFirstImplicit bytesFirstImplicit = true := by decide +kernel
+theorem param_differ : bytesDiffer tyParam bytesParam = true := by decide +kernel
 
 end Jomini.TextE2E
